@@ -7,22 +7,22 @@ ALL = ["C%02d" % i for i in range(1, 21)]
 CHECKS = {
  "C06": ("fault_enumeration", "E3-faults",
    "exhaustive single-fault (thorough: + pair) enumeration over generated seed files, every entry point, in sandboxed worker processes with panic hook, limiting allocator and watchdog",
-   "Every byte offset of every part (inflated zip members re-zipped with valid CRCs, raw zip bytes, the BIFF8 Workbook stream re-wrapped in a valid compound file, raw compound-file bytes incl. header/FAT/directory, the decompressed VBA dir stream re-compressed, a compressed module stream) of 5 (thorough 10) seed workbooks x 14 byte/field operators (+ numeric and cell-reference replacement in XML, deletion of each member; thorough: all pairs of 5 field-sized overwrites in the first 160 bytes of binary parts) = 224 k (2.08 M) faulted files, each run through new(), ranges under two header options, formulas, worksheets(), metadata, VBA, merge cells / tables / range_ref and auto-detection. Panics (overflow checks on), single allocations above max(64 MiB, 4096 x input), 4 GiB live, and 10 s stalls are violations keyed by panic location / allocating source line (in XML parts qualified by the element and attribute the fault sits in); the sites reachable on the pinned tree are listed one by one in KNOWN_FINDINGS.txt, any other site fails the check.",
+   "Every byte offset of every part (inflated zip members re-zipped with valid CRCs, raw zip bytes, the BIFF8 Workbook stream re-wrapped in a valid compound file, raw compound-file bytes incl. header/FAT/directory, the decompressed VBA dir stream re-compressed, a compressed module stream) of 5 (thorough 10) seed workbooks x 14 byte/field operators (+ numeric and cell-reference replacement in XML, deletion of each member; thorough: all pairs of 5 field-sized overwrites in the first 160 bytes of binary parts) = 224 k (2.08 M) faulted files, each run through new(), ranges under two header options, formulas, worksheets(), metadata, VBA, merge cells / tables (one beside the used cells) / range_ref and auto-detection. Panics (overflow checks on), single allocations above max(64 MiB, 4096 x input), 4 GiB live, and 10 s stalls are violations keyed by panic location / allocating source line (in XML parts qualified by the element and attribute the fault sits in); the sites reachable on the pinned tree are listed one by one in KNOWN_FINDINGS.txt, any other site fails the check.",
    "Trusted: the fault operators and seeds; 'time proportional to input' is approximated by the stall watchdog, 'memory proportional' by the allocator thresholds; arbitrary multi-fault combinations are not covered.",
    "DESIGN.md §2 C06"),
  "C07": ("model_checking", "E2-bfs",
    "exhaustive enumeration of all call sequences up to depth 3 (thorough 4) over the Reader/ReaderRef API on real readers, differential oracle against first-call results",
-   "For one feature-rich workbook per format (3 sheets incl. chart/hidden sheet, shared strings, 1-D and 2-D shared formulas, dates, merged regions, a table, a VBA project, a defined name, a gap row) every sequence of <=3 (thorough 4) calls over 13 Reader calls, 3 header-row settings and the format's own calls (range_ref, merge cells by name / index incl. unknown ones, merged regions, tables) is replayed on a fresh reader (32 k / 665 k sequences): every result must equal the result of the same call made first on a fresh reader under the header-row option then in force. In addition range == range_ref == range_at(n) == worksheets()[name] for every sheet, unknown names and near misses of every real name (letter case, blanks, one character more or less) are errors, two sheets whose names differ only by case are distinct on every path, and the auto-detected Sheets reader returns the same results as the format's own reader for every common call under every option.",
+   "For one feature-rich workbook per format (3 sheets incl. chart/hidden sheet, shared strings, 1-D and 2-D shared formulas, dates, merged regions, a table, a VBA project, a defined name, a gap row) every sequence of <=3 (thorough 4) calls over 13 Reader calls, 3 header-row settings and the format's own calls (range_ref, merge cells by name / index incl. unknown ones, merged regions, tables) is replayed on a fresh reader (32 k / 665 k sequences): every result must equal the result of the same call made first on a fresh reader under the header-row option then in force. In addition range == range_ref == range_at(n) == worksheets()[name] for every sheet, unknown names and near misses of every real name (letter case, blanks, one character more or less) are errors, two sheets whose names differ only by case are distinct on every path, and the auto-detected Sheets reader returns the same results as the format's own reader for every common call under every option and after every change of option.",
    "Trusted: the workbook builders; results compared through Debug renderings.",
    "DESIGN.md §2 C07"),
  "C20": ("model_checking", "E1-choice",
    "stateless choice-tree exploration of encrypted containers (OOXML-in-CFB, BIFF8 FILEPASS, ods manifests) and of unencrypted workbooks on the real readers",
-   "Encrypted OOXML packages (6 sizes around the mini-stream cutoff, 4 EncryptionInfo variants, DataSpaces storage or not) in CFB layouts (v3/v4, 5 sector orders, directory variations, stale bytes after name terminators) opened with Xlsx and Xlsb; BIFF workbooks with FILEPASS of 5 kinds (BIFF8 RC4, XOR, CryptoAPI v2/v4; the 4-byte BIFF5 XOR form in a Book stream) at both legal positions with garbled record bodies; ods manifests with encryption-data on the first, a middle, the last, all or several of 3-5 entries, with or without a leading manifest:keyinfo element: every one must fail with the reader's Password error. Conversely unencrypted xlsx (every C01 encoding), xlsb, xls (CFB layouts, extra streams, WRITEPROTECT, PROTECT + PASSWORD verifier) and ods workbooks whose names and strings spell the trigger words must open. Full product for ods/plain (thorough: all families), <=3 deviations otherwise.",
+   "Encrypted OOXML packages (6 sizes around the mini-stream cutoff, 4 EncryptionInfo variants, DataSpaces storage or not) in CFB layouts (v3/v4, 5 sector orders, directory variations, stale bytes after name terminators) opened with Xlsx and Xlsb; BIFF workbooks with FILEPASS of 5 kinds (BIFF8 RC4, XOR, CryptoAPI v2/v4; the 4-byte BIFF5 XOR form in a Book stream) at both legal positions with garbled record bodies; ods manifests with encryption-data on the first, a middle, the last, all or several of 3-5 entries, with or without a leading manifest:keyinfo element: a 15.7 MB package (two DIFAT sectors, directory behind sector 30208) in three sector orders, chains owning spare sectors: every one must fail with the reader's Password error. Conversely unencrypted xlsx (every C01 encoding), xlsb, xls (CFB layouts, extra streams, WRITEPROTECT, PROTECT + PASSWORD verifier) and ods workbooks whose names and strings spell the trigger words must open. Full product for ods/plain (thorough: all families), <=3 deviations otherwise.",
    "Trusted: the container writers; ciphertext is pseudo-random.",
    "DESIGN.md §2 C20"),
  "C18": ("model_checking", "E1-choice",
    "complete enumeration of sources over {a,b} up to length 8/10 x every valid tokenisation, copy tokens at every chunk position, multi-chunk containers through the real decompressor; choice-tree exploration of project layouts in three container formats",
-   "(a) every source over {a,b} of length <= 8 (thorough 10) in every valid tokenisation (literal or any legal copy token at each position; 27 k / 50 k containers), copy tokens with boundary offsets and lengths at every decompressed position 1..4095 (all 12 offset-width regimes), sources of 0..20000 bytes of four redundancy profiles compressed greedy / literal-only / raw, and two-chunk containers whose first chunk has every token count modulo 8, all decompressed by the real code and compared with the source or an independent reference expansion; (b) projects with 0-3 modules (source length, text offset 0/5/1000, compression mode, stream name different from module name, class/read-only/private records, bytes that happen to be valid UTF-8, module names equal to project streams up to case), 0-3 references of 5 kinds, optional compat-version record, code page 1252 (thorough 932), CFB layout, embedded in xlsm, xlsb and xls: module names, raw bytes, decoded text and reference names.",
+   "(a) every source over {a,b} of length <= 8 (thorough 10) in every valid tokenisation (literal or any legal copy token at each position; 27 k / 50 k containers), copy tokens with boundary offsets and lengths at every decompressed position 1..4095 (all 12 offset-width regimes), sources of 0..20000 bytes of four redundancy profiles compressed greedy / literal-only / raw, and two-chunk containers whose first chunk has every token count modulo 8, all decompressed by the real code and compared with the source or an independent reference expansion; (b) projects with 0-3 modules (source length, text offset 0/5/1000, compression mode, stream name different from module name, class/read-only/private records, bytes that happen to be valid UTF-8, module names equal to project streams up to case), empty or filled DOCSTRING / HELPFILE / CONSTANTS records, 0-3 references of 5 kinds, optional compat-version record, code page 1252 (thorough 932), CFB layout, embedded in xlsm, xlsb and xls: module names, raw bytes, decoded text and reference names.",
    "Trusted: gen/ovba.rs (compressor, dir stream from MS-OVBA 2.3.4.2, 2.4.1) and gen/cfb.rs; optional unicode records always present.",
    "DESIGN.md §2 C18"),
  "C15": ("model_checking", "E1-choice",
@@ -32,7 +32,7 @@ CHECKS = {
    "DESIGN.md §2 C15"),
  "C14": ("model_checking", "E1-choice",
    "complete enumeration of formula ASTs up to depth 2 (thorough: + depth 3 layer) serialised to BIFF8/BIFF12 token streams and rendered by the real parsers, vs the AST's own A1 renderer; sub-lattice end to end at cell positions",
-   "About 160 k (thorough 4 M) ASTs per binary format over cell refs (4 absolute/relative combinations x columns A..IV/XFD x first/last row), areas, 3-D refs and areas through a non-identity XTI table, defined names, int/float/8- and 16-bit string/bool/error literals, unary, 15 binary, parentheses, fixed- and variable-arity functions (incl. omitted arguments, CHOOSE, calls with 30 / 127 / 128 / 130 / 255 arguments), deleted references (PtgRefErr/AreaErr, 2-D and 3-D) and PtgAttrSum are serialised in both operand classes and once more with the control tokens applications write (PtgAttrSemi, PtgAttrIf/Goto, PtgAttrChoose) and rendered by the real xls and xlsb token parsers; every 41st (thorough 7th) is also written into FORMULA / BrtFmla* records in windows at A1 and at the last cell and read through worksheet_formula (placement and emptiness of other cells checked), cycling a formula-less name record before the used names and (xls) sheet substreams stored in reverse of BoundSheet8 order; xlsx and ods stored-text formulas with XML-special characters at every subset of 6 positions (two of them directly after another, so that implicit and explicit references mix within a row), explicit and implicit cell references, rows that never carry r, formula text split by CDATA and comments, ods formula cells without cached value, indented documents.",
+   "About 160 k (thorough 4 M) ASTs per binary format over cell refs (4 absolute/relative combinations x columns A..IV/XFD x first/last row), areas, 3-D refs and areas through a non-identity XTI table, defined names, int/float/8- and 16-bit string/bool/error literals, unary, 15 binary, parentheses, fixed- and variable-arity functions (incl. omitted arguments, CHOOSE, calls with 30 / 127 / 128 / 130 / 255 arguments), deleted references (PtgRefErr/AreaErr, 2-D and 3-D), 8 error literals incl. 0x2B, and PtgAttrSum are serialised in both operand classes and once more with the control tokens applications write (PtgAttrSemi, PtgAttrIf/Goto, PtgAttrChoose) and rendered by the real xls and xlsb token parsers; every 41st (thorough 7th) is also written into FORMULA / BrtFmla* records in windows at A1 and at the last cell and read through worksheet_formula (placement and emptiness of other cells checked), cycling a formula-less name record before the used names and (xls) sheet substreams stored in reverse of BoundSheet8 order, (xlsb) a chart sheet as second tab so that tab indices and worksheet indices differ; xlsx and ods stored-text formulas with XML-special characters at every subset of 6 positions (two of them directly after another, so that implicit and explicit references mix within a row), explicit and implicit cell references, rows that never carry r, formula text split by CDATA and comments, ods formula cells without cached value, indented documents.",
    "Trusted: model/formula.rs (AST renderer and Ptg serialiser written from MS-XLS 2.5.198 / MS-XLSB 2.5.97; relative flags: bit 14 column, bit 15 row). Strings without double quotes, sheet names that need no quoting.",
    "DESIGN.md §2 C14"),
  "C17": ("model_checking", "E1-choice",
@@ -42,47 +42,47 @@ CHECKS = {
    "DESIGN.md §2 C17"),
  "C08": ("model_checking", "E2-bfs",
    "exhaustive enumeration of option histories (depth <= 2 over 12 options, depth 3 over 4/12) x all row patterns x four formats on real readers vs the statement",
-   "For every subset of rows 0..4 being non-empty (32 patterns) plus a sheet occupying the last two rows of the grid, two column offsets and all four formats (xlsx and xlsb also with an out-of-date advisory dimension record, xlsx also with rows and cells without r attributes), every history of <=2 header-row settings over FirstNonEmptyRow and Row(n), n in {0..6, 65535, 65536, 1048576, u32::MAX}, and every history of 3 over a 4-option subset (thorough: all 12), is run on one reader with a read after every step; each read must not panic, start at row n iff data exists at or below n (else be empty), agree cell-by-cell with the default read at every position >= n and contain nothing else.",
+   "For every subset of rows 0..4 being non-empty (32 patterns) plus a sheet occupying the last two rows of the grid, two column offsets and all four formats (xlsx and xlsb also with an out-of-date advisory dimension record, xlsx also with rows and cells without r attributes, xls also with blank-string formula results alone on the first and last used row), every history of <=2 header-row settings over FirstNonEmptyRow and Row(n), n in {0..6, 65535, 65536, 1048576, u32::MAX}, and every history of 3 over a 4-option subset (thorough: all 12), is run on one reader with a read after every step; each read must not panic, start at row n iff data exists at or below n (else be empty), agree cell-by-cell with the default read at every position >= n and contain nothing else.",
    "Trusted: the four writers and the statement-level oracle in props/c08.rs; columns of the returned range are not constrained.",
    "DESIGN.md §2 C08"),
  "C16": ("model_checking", "E1-choice",
    "stateless choice-tree exploration of workbook metadata (sheet lists, names, visibility, kinds, defined names, date system) in four formats on the real readers",
-   "Workbooks with 0-3 sheets over 9 names (XML specials, quotes, non-ASCII, a C1 control character, astral, 31 characters), every visibility and every sheet kind the format can express, 0-2 reference-valued defined names, both date systems with a date cell on every worksheet, xlsx prefix / xls name packing / ods table:name attribute last / ods style-name collisions across families / xlsx defined-name text split by a comment / .rels attribute order / indented documents / xls substreams in reverse of BoundSheet8 order / a formula-less name record first (xls, xlsb): all choice vectors with <=3 (thorough 4) deviations plus the full product over one-sheet workbooks; sheet_names, sheets_metadata, defined_names and the date cells (xls: NUMBER or RK integer /100) are compared exactly and in order, and must be the same through content auto-detection.",
+   "Workbooks with 0-3 sheets over 9 names (XML specials, quotes, non-ASCII, a C1 control character, astral, 31 characters), every visibility and every sheet kind the format can express, 0-2 reference-valued defined names, both date systems with a date cell on every worksheet, xlsx prefix / xls name packing / ods table:name attribute last / ods style-name collisions across families / ods table:dde-links with an unnamed table / xlsx defined-name text split by a comment / .rels attribute order / indented documents / xls substreams in reverse of BoundSheet8 order / a formula-less name record first (xls, xlsb): all choice vectors with <=3 (thorough 4) deviations plus the full product over one-sheet workbooks; sheet_names, sheets_metadata, defined_names and the date cells (xls: NUMBER or RK integer /100) are compared exactly and in order, and must be the same through content auto-detection.",
    "Trusted: the four writers; defined names are reference-valued only.",
    "DESIGN.md §2 C16"),
  "C10": ("model_checking", "E1-choice",
    "complete enumeration of all number-format token sequences up to length 3/4 through the real classifier vs a token-level reference + full product of style tables x number encodings x date systems in three formats",
-   "(a) all 143 k (thorough 7.5 M) sequences over a 52-token alphabet of the number-format grammar are classified by the real detect_custom_number_format and compared with a token-level reference (first section only; literals, escapes and bracket prefixes do not count); every built-in id 0-22, 37-49 through both lookup functions. (b) the full product (about 16 k files) of 14 style kinds, 5 serials, both date systems, XF position, out-of-range style index, General xf entries without numFmtId and applyNumberFormat 1/absent/0 (xlsx), the fPhShow bit (xlsb) and every number encoding of xlsx / xls / xlsb is read end to end: variant, flavour, serial and is_1904 must match.",
+   "(a) all 143 k (thorough 7.5 M) sequences over a 52-token alphabet of the number-format grammar are classified by the real detect_custom_number_format and compared with a token-level reference (first section only; literals, escapes and bracket prefixes do not count); every built-in id 0-22, 37-49 through both lookup functions. (b) the full product (about 16 k files) of 14 style kinds, 5 serials, both date systems, XF position, out-of-range style index, General xf entries without numFmtId and applyNumberFormat 1/absent/0 (xlsx), the fPhShow bit (xlsb), FORMAT strings stored 8- or 16-bit (xls) and every number encoding of xlsx / xls / xlsb is read end to end: variant, flavour, serial and is_1904 must match.",
    "Trusted: the token classes of props/c10.rs; token sequences mixing General/@ with date tokens, digit placeholders or separators, and elapsed tokens after a date token, are outside the grammar and skipped; locale-dependent built-in ids not asserted.",
    "DESIGN.md §2 C10"),
  "C19": ("model_checking", "E1-choice",
    "stateless choice-tree exploration of atom strings x every storage form of all four formats on the real readers",
-   "All 3616 strings of <=3 atoms over 15 atoms (XML specials, spaces, tab, LF, ]]>, Latin-1, C1 control U+0091, BMP, astral) plus the empty and a 32767-character string are written in every storage form: xlsx shared/inline/formula string x entity/decimal/hex references/CDATA/mixed (CDATA + comment + text) x plain/1-3 rich runs/phonetic runs x empty <si/> before or between x prefix; xlsb Isst (plain/rich/phonetic)/St/FmlaString; xls SST (plain/rich/ExtRst, optionally after an empty rich item)/LABEL/STRING in both packings; ods content (text:s variants, literal spaces, spans, paragraphs, with or without a cell comment) or attribute. Exact string equality, and the neighbouring string must be unaffected.",
+   "All 3616 strings of <=3 atoms over 15 atoms (XML specials, spaces, tab, LF, ]]>, Latin-1, C1 control U+0091, BMP, astral) plus the empty and a 32767-character string are written in every storage form: xlsx shared/inline/formula string x entity/decimal/hex references/CDATA/mixed (CDATA + comment + text) x plain/1-3 rich runs/phonetic runs x empty <si/> before or between x prefix; xlsb Isst (plain/rich/phonetic)/St/FmlaString; xls SST (plain/rich/ExtRst, optionally after an empty rich item)/LABEL/STRING in both packings; ods content (text:s variants, literal spaces, spans, paragraphs, with or without a cell comment), attribute with or without text:p. Exact string equality, and the neighbouring string must be unaffected.",
    "Trusted: the four writers; an empty-string cell may read as Empty; ods tab only in the attribute form.",
    "DESIGN.md §2 C19"),
  "C02": ("model_checking", "E1-choice",
    "complete enumeration of all 2^32 RK words through the real decoder + stateless choice-tree exploration of BIFF8 sheets x equivalent record encodings",
-   "All 4 294 967 296 RK words are decoded by the real rk decoder and compared with the MS-XLS 2.5.217 definition (value, sign extension, /100, Int/Float typing); shared-string tables of 255..66000 strings with LABELSST indices at the 8- and 16-bit boundaries; formula results whose IEEE bytes carry 0xFF in one of the two top bytes; end to end, sheets with <=2 (thorough 3) cells of ~75 kinds at three anchors (incl. row 65535 / column 255) are written with every exact encoding of each number (NUMBER, RK int/float, x100 forms, MULRK grouping), LABELSST/LABEL/BOOLERR/FORMULA(+STRING, also with a SHRFMLA / ARRAY / TABLE record in between) and ignorable records, in v3 and v4 containers, and read back through worksheet_range.",
+   "All 4 294 967 296 RK words are decoded by the real rk decoder and compared with the MS-XLS 2.5.217 definition (value, sign extension, /100, Int/Float typing); shared-string tables of 255..66000 strings with LABELSST indices at the 8- and 16-bit boundaries; formula results whose IEEE bytes carry 0xFF in one of the two top bytes; FORMULA records whose tokens the text renderer rejects; a Book stream next to Workbook; end to end, sheets with <=2 (thorough 3) cells of ~75 kinds at three anchors (incl. row 65535 / column 255) are written with every exact encoding of each number (NUMBER, RK int/float, x100 forms, MULRK grouping), LABELSST/LABEL/BOOLERR/FORMULA(+STRING, also with a SHRFMLA / ARRAY / TABLE record in between) and ignorable records, in v3 and v4 containers, and read back through worksheet_range.",
    "Trusted: gen/biff8.rs + gen/cfb.rs writers (MS-XLS / MS-CFB) and the value model.",
    "DESIGN.md §2 C02"),
  "C03": ("model_checking", "E1-choice",
    "stateless choice-tree exploration of BIFF12 sheets x record kinds x ignorable-record interleavings on the real reader",
-   "Sheets with <=2 cells of ~70 kinds (every exact RK encoding, Real, Isst, St, Bool, Error, all four BrtFmla* kinds, zero-length constant and cached strings, /100 RK floats sensitive to the rounding of the division), bulk inside the skipped blocks before the sheet data (records crossing the reader's buffer refills), the fPhShow bit of the Cell structure set or not, at three anchors incl. the last row/column, with an ignorable record of 7 kinds and 6 payload lengths (1-, 2- and 3-byte length prefixes, 1- and 2-byte ids) at every gap, blank cells and optional pre-sheet-data blocks; all choice vectors with <=2 (thorough 3) deviations; worksheet_range and worksheet_range_ref compared with the model and with each other.",
+   "Sheets with <=2 cells of ~70 kinds (every exact RK encoding, Real, Isst, St, Bool, Error, all four BrtFmla* kinds, zero-length constant and cached strings, /100 RK floats sensitive to the rounding of the division), bulk inside the skipped blocks before the sheet data (records crossing the reader's buffer refills), the fPhShow bit of the Cell structure set or not, at three anchors incl. the last row/column, with an ignorable record of 7 kinds and 6 payload lengths (1-, 2- and 3-byte length prefixes, 1- and 2-byte ids) at every gap, blank cells and optional pre-sheet-data blocks; shared-string tables of 65535..66000 strings with indices above 16 bits; all choice vectors with <=2 (thorough 3) deviations; worksheet_range and worksheet_range_ref compared with the model and with each other.",
    "Trusted: gen/xlsb.rs (MS-XLSB) and the value model.",
    "DESIGN.md §2 C03"),
  "C12": ("model_checking", "E1-choice",
    "stateless choice-tree exploration: every legal set of CONTINUE cut points x per-segment 8/16-bit packing of small shared-string tables on the real reader",
-   "single-, two- and three-string tables (all texts of <=3 characters + 4-character texts without the astral character; thorough: all of <=4 + 5-character texts without it) over {ASCII, Latin-1, C1 control U+0091, BMP-only, astral} characters with rich-run / ExtRst variants are serialised under every subset of legal cut points and every packing of compressible segments (full product on small tables, <=2/3 deviations otherwise), plus 9000- and 32767-character strings cut at the 8224-byte limit; LABEL, FORMULA+STRING (3 or 300 characters) and sheet names in both packings; every cell referencing every string is compared.",
+   "single-, two- and three-string tables (all texts of <=3 characters + 4-character texts without the astral character; thorough: all of <=4 + 5-character texts without it) over {ASCII, Latin-1, C1 control U+0091, BMP-only, astral} characters with rich-run / ExtRst variants are serialised under every subset of legal cut points and every packing of compressible segments (full product on small tables, <=2/3 deviations otherwise), plus 9000- and 32767-character strings cut at the 8224-byte limit, an SST record holding only its header, tables of 255..66000 strings; LABEL, FORMULA+STRING (3 or 300 characters) and sheet names in both packings; every cell referencing every string is compared.",
    "Trusted: the SST serialiser in gen/biff8.rs; cuts inside headers / surrogate pairs are not generated.",
    "DESIGN.md §2 C12"),
  "C13": ("model_checking", "E1-choice",
    "stateless choice-tree exploration of stream sets x physical compound-file layouts through the real Cfb reader",
-   "138 stream sets with sizes around the 64-byte mini sector, the 4096 mini-stream cutoff and sector multiples are written in every combination (thorough: full 9216-layout product; quick: <=2 deviations + full product on 6 sets) of v3/v4, 8 sector orders, 4 mini-sector orders, unused directory entries, directory order, free sectors, extra FAT sectors, free mini sectors, stale bytes after the name terminator, junk in the upper half of v3 size fields, a mini FAT sector without mini stream; a 7.3 MB stream (partly filled DIFAT sector) in both tiers; thorough adds a 15 MB stream with a full DIFAT sector. Streams must come back byte-exact. End to end, an xls workbook (small / above the cutoff) in every such layout must read the same cells as in the default layout, also when a BIFF5 Book stream precedes Workbook in the directory.",
+   "138 stream sets with sizes around the 64-byte mini sector, the 4096 mini-stream cutoff and sector multiples are written in every combination (thorough: full 73728-layout product; quick: <=2 deviations + full product on 6 sets) of v3/v4, 8 sector orders, 4 mini-sector orders, unused directory entries, directory order, free sectors, extra FAT sectors, free mini sectors, stale bytes after the name terminator, junk in the upper half of v3 size fields, a mini FAT sector without mini stream, chains owning spare sectors past the stream's size; a 7.3 MB stream (partly filled DIFAT sector) in both tiers; thorough adds a 15 MB stream with a full DIFAT sector. Streams must come back byte-exact. End to end, an xls workbook (small / above the cutoff) in every such layout must read the same cells as in the default layout, also when a BIFF5 Book stream precedes Workbook in the directory.",
    "Trusted: gen/cfb.rs (MS-CFB). The directory red-black colouring is not varied.",
    "DESIGN.md §2 C13"),
  "C01": ("model_checking", "E1-choice",
    "stateless choice-tree exploration of logical xlsx sheets x legal physical encodings on the real reader vs a map model",
-   "Every sheet with <=2 (thorough 3) cells of 28 kinds, optionally in a 1904 workbook, (incl. numbers under General / date / 0.00 styles, formulas caching the empty string or text with XML references) in a 3x4 window at four anchors (A1 .. XFD1048576 corner) is written under every choice vector with <=2 (thorough 3) deviations over cell kinds and 25 variation points (XML comments, optional neighbours of sheetData, true/false booleans, sst count below the item count, relationship ids in shuffled order, a stale dimension, General xf entries without numFmtId, indented XML, XL/ folder case, applyNumberFormat 1/absent/0, Target before Type in .rels, rows that never carry r, formula text split by CDATA and comments, ...), plus the full encoding product on representative sheets; each file is read through worksheet_range and worksheet_range_ref and compared cell-by-cell and bound-by-bound with the model.",
+   "Every sheet with <=2 (thorough 3) cells of 29 kinds, optionally in a 1904 workbook, (incl. numbers under General / date / 0.00 styles, formulas caching the empty string or text with XML references) in a 3x4 window at four anchors (A1 .. XFD1048576 corner) is written under every choice vector with <=2 (thorough 3) deviations over cell kinds and 25 variation points (XML comments, optional neighbours of sheetData, true/false booleans, sst count below the item count, relationship ids in shuffled order, a stale dimension, General xf entries without numFmtId, indented XML, XL/ folder case, applyNumberFormat 1/absent/0, Target before Type in .rels, rows that never carry r, formula and value text split by CDATA and comments, inline strings followed by phonetic runs, ...), plus the full encoding product on representative sheets; each file is read through worksheet_range and worksheet_range_ref and compared cell-by-cell and bound-by-bound with the model.",
    "Trusted: the independent writer gen/xlsx.rs (ECMA-376) and the map model; inputs outside the alphabet (relationship prefixes other than r:, extLst children, _xHHHH_ escapes) are not generated.",
    "DESIGN.md §2 C01"),
  "C04": ("model_checking", "E1-choice",
@@ -97,7 +97,7 @@ CHECKS = {
    "DESIGN.md §2 C05"),
  "C09": ("model_checking", "E1-choice",
    "stateless choice-tree exploration (full product / deviation-bounded) of ranges x header configs x target shapes on the real RangeDeserializer vs a reference row mapper",
-   "Every small range (origin, 0-3 rows, 1-3 columns, 14 cell values incl. two error kinds, the zero-length string, an integer beyond 2^53 and a fraction below one), every header mode (none / all, each also reached through another builder setting / every ordered custom selection incl. padded and unknown names / struct field names) and 12 target record shapes are enumerated; every item, every size_hint before each next() and every CellError kind and absolute position is compared with a reference mapper. Full product on small jobs, all choice vectors with <=2 (thorough 3) deviations from the default on the rest.",
+   "Every small range (origin, 0-3 rows, 1-3 columns, 15 cell values incl. two error kinds, the strings true / False, the zero-length string, an integer beyond 2^53 and a fraction below one), every header mode (none / all, each also reached through another builder setting / every ordered custom selection incl. padded and unknown names / struct field names) and 12 target record shapes are enumerated; every item, every size_hint before each next() and every CellError kind and absolute position is compared with a reference mapper. Full product on small jobs, all choice vectors with <=2 (thorough 3) deviations from the default on the rest.",
    "Trusted: the reference conversions in props/c09.rs; serde's derive. Custom error messages are not compared.",
    "DESIGN.md §2 C09"),
  "C11": ("model_checking", "sweep",
